@@ -202,7 +202,17 @@ def _path_effects(fn, b):
         elif k == 'use' and rv['o'].get('k') in ('copy', 'move') and not rv['o']['place']['p']:
             fx.append((l, ('copy', rv['o']['place']['l'])))
         elif k == 'agg' and rv.get('agg') == 'adt':
-            fx.append((l, ('v', rv['vidx'])))
+            pay = None
+            if len(rv.get('ops', [])) == 1:
+                o = rv['ops'][0]
+                if o.get('k') == 'const' and 'bits' in o['c']:
+                    pay = ('bool', bool(int(o['c']['bits']))) if o['c'].get('ty') == 'bool' else ('int', int(o['c']['bits']))
+                elif o.get('k') in ('copy', 'move') and not o['place']['p']:
+                    pay = ('loc', o['place']['l'])
+            fx.append((l, ('v', rv['vidx'], pay)))
+        elif k == 'use' and rv['o'].get('k') in ('copy', 'move') and len(rv['o']['place']['p']) == 2 and rv['o']['place']['p'][0]['k'] == 'downcast' \
+                and rv['o']['place']['p'][1]['k'] == 'field' and rv['o']['place']['p'][1].get('i', 0) == 0:
+            fx.append((l, ('payload', rv['o']['place']['l'])))
         elif k == 'discr' and not rv['place']['p']:
             fx.append((l, ('discr', rv['place']['l'])))
         else:
@@ -222,7 +232,7 @@ def _path_effects(fn, b):
     return fx
 
 
-def feasible_reach(fn, start, avoid=(), known=None, limit=40000):
+def feasible_reach(fn, start, avoid=(), known=None, limit=40000, edges=None):
     """blocks reachable from `start` without entering `avoid`, pruning branches whose outcome is known along the path:
     boolean locals assigned constants, and enum values whose variant was just constructed (`Ok(..)`, `Err(..)`, the
     result of `?`'s from_residual) and is then tested through Try::branch / discriminant / switch.  This removes the
@@ -239,10 +249,14 @@ def feasible_reach(fn, start, avoid=(), known=None, limit=40000):
             continue
         n += 1
         if n > limit:
-            return fn.reachable(start, avoid)
+            r = fn.reachable(start, avoid)
+            if edges is not None:
+                edges |= {(x, y) for x in r for y in fn.succ(x) if y not in avoid}
+            return r
         seen.add((b, kn))
         out.add(b)
         env = dict(kn)
+        _push = (lambda x, k2: (edges.add((b, x)) if edges is not None else None, st.append((x, k2)))[1])
         for l, v in _path_effects(fn, b):
             if v is None:
                 env.pop(l, None)
@@ -251,6 +265,19 @@ def feasible_reach(fn, start, avoid=(), known=None, limit=40000):
                     env[l] = env[v[1]]
                 else:
                     env.pop(l, None)
+            elif v[0] == 'payload':
+                src = env.get(v[1])
+                if src is not None and src[0] == 'v' and len(src) > 2 and src[2] is not None:
+                    env[l] = src[2]
+                else:
+                    env.pop(l, None)
+            elif v[0] == 'v' and len(v) > 2:
+                pv = v[2]
+                if pv is not None and pv[0] == 'loc':
+                    pv = env.get(pv[1])
+                    if pv is not None and pv[0] not in ('bool', 'int'):
+                        pv = None
+                env[l] = ('v', v[1], pv)
             elif v[0] == 'discr':
                 src = env.get(v[1])
                 if src is not None and src[0] == 'v':
@@ -260,10 +287,11 @@ def feasible_reach(fn, start, avoid=(), known=None, limit=40000):
             elif v[0] == 'branch':
                 src = env.get(v[1])
                 ty = fn.local_ty(v[1])
+                pv = src[2] if (src is not None and len(src) > 2) else None
                 if src is not None and src[0] == 'v' and ty.startswith('std::result::Result'):
-                    env[l] = ('v', 0 if src[1] == 0 else 1)
+                    env[l] = ('v', 0 if src[1] == 0 else 1, pv if src[1] == 0 else None)
                 elif src is not None and src[0] == 'v' and ty.startswith('std::option::Option'):
-                    env[l] = ('v', 0 if src[1] == 1 else 1)
+                    env[l] = ('v', 0 if src[1] == 1 else 1, pv if src[1] == 1 else None)
                 else:
                     env.pop(l, None)
             else:
@@ -278,7 +306,7 @@ def feasible_reach(fn, start, avoid=(), known=None, limit=40000):
                 f_edge = tg.get(0, t['otherwise'])
                 t_edge = t['otherwise'] if 0 in tg else tg.get(1, t['otherwise'])
                 if kv is not None and kv[0] == 'bool':
-                    st.append((t_edge if kv[1] else f_edge, tuple(sorted(env.items()))))
+                    _push(t_edge if kv[1] else f_edge, tuple(sorted(env.items())))
                     continue
                 for x in succs:
                     e2 = dict(env)
@@ -286,13 +314,13 @@ def feasible_reach(fn, start, avoid=(), known=None, limit=40000):
                         e2[l] = ('bool', True)
                     elif x == f_edge and x != t_edge:
                         e2[l] = ('bool', False)
-                    st.append((x, tuple(sorted(e2.items()))))
+                    _push(x, tuple(sorted(e2.items())))
                 continue
             if kv is not None and kv[0] == 'int':
-                st.append((tg.get(kv[1], t['otherwise']), tuple(sorted(env.items()))))
+                _push(tg.get(kv[1], t['otherwise']), tuple(sorted(env.items())))
                 continue
         for x in succs:
-            st.append((x, tuple(sorted(env.items()))))
+            _push(x, tuple(sorted(env.items())))
     return out
 
 
